@@ -390,7 +390,7 @@ func (x *Ctx) depthGuardBefore(fn *ssa.Function, c *ssa.Call) string {
 			continue
 		}
 		st := structOfType(fa.X.Type())
-		if st == nil || st.Field(fa.Field).Name() != "depth" {
+		if st == nil || st.Field(fa.Field).Name() != x.fld("depth") {
 			continue
 		}
 		k, ok := be.Y.(*ssa.Const)
@@ -447,7 +447,7 @@ func (x *Ctx) borrowSetsDepth(recv ssa.Value) string {
 		// returned value
 		found := false
 		for _, fs := range stores {
-			if fs.Field != "depth" || !fs.Always || !fs.Base.isLeaf(ret.Results[0]) || !(fs.At == b || fs.At.Dominates(b)) {
+			if fs.Field != x.fld("depth") || !fs.Always || !fs.Base.isLeaf(ret.Results[0]) || !(fs.At == b || fs.At.Dominates(b)) {
 				continue
 			}
 			v := fs.Val
@@ -457,7 +457,7 @@ func (x *Ctx) borrowSetsDepth(recv ssa.Value) string {
 			if one, ok := v.Y.constInt(); !ok || one != 1 {
 				continue
 			}
-			if v.X.isFieldLoad(parent, "depth") {
+			if v.X.isFieldLoad(parent, x.fld("depth")) {
 				found = true
 			}
 		}
